@@ -137,6 +137,11 @@ func (r *Reader) Read(buf []byte) (n int, err error) {
 }
 
 func (r *Reader) decodeScanLine() {
+	if r.EncodedByteAlign {
+		// every encoded line starts on a byte boundary
+		r.skipToByteBoundary()
+	}
+
 	if r.K < 0 {
 		r.decodeG4ScanLine()
 	} else if r.K == 0 {
@@ -153,6 +158,11 @@ func (r *Reader) decodeG4ScanLine() {
 	// Group 4 fax uses pure 2D encoding for all lines
 	// with no EOL codes or line mode switching
 	r.decode2D()
+
+	if r.EncodedByteAlign {
+		// the fill bits of the last line come before the EOFB
+		r.skipToByteBoundary()
+	}
 
 	// Check for EOFB (End of Facsimile Block)
 	// EOFB in Group 4 is 24 bits: 000000000001000000000001
@@ -389,6 +399,12 @@ func (r *Reader) readBits(n int) uint32 {
 	res := r.peekBits(n)
 	r.consumeBits(n)
 	return res
+}
+
+// skipToByteBoundary discards the unread bits of the current input byte.
+// Input bytes are loaded whole, so validBits%8 bits of that byte are unread.
+func (r *Reader) skipToByteBoundary() {
+	r.consumeBits(r.validBits % 8)
 }
 
 // waitForOne consumes bits, one by one, until a 1 has been consumed.
